@@ -101,7 +101,7 @@ def check(tier, seed):
                       rule='exact-arithmetic clause only: the input region is initialised (by an interpreted reference stage) to A = L(lam) D(del) U(mu) with symbolic unit-triangular L, U and symbolic diagonal D, which parametrises every matrix with non-singular leading blocks (the domain of the unpivoted strategies); inverse<SimpleInv|BlockLU|SimpleLU>(A) is interpreted and A*X - I and X*A - I must normalise to the zero Laurent polynomial in every cell (every divisor is a monomial in del, so no atom survives). Full parametrisation for n <= 7 (thorough 8), unit-bidiagonal L, U (banded) for larger sizes across the recursion boundaries; triangular inverse (Upper with A = D U, UniLower with A = L) by the same identity; on plain symbolic input: every element written, reads inside A, alignment, no allocation, syntactic dependence on all of A.',
                       trusted=['clang-14 front end and -O2 code generation', 'LLVM IR semantics as modelled by irflow', 'x86 lane table', 'reference stages in gen/linalg_common.py'],
                       floors=load_floors('C10', tier),
-                      assumptions=['exact (real) arithmetic: the n*eps*cond(A) rounding bound of the property is NOT decided (DESIGN.md §6)', 'pivoted strategies: the data-dependent pivot search is not analysed; what follows it is the same dispatcher'],
-                      extra_cov={'not_decided': 'floating-point residual bound; pivot search of the pivoted strategies'})
+                      assumptions=['exact (real) arithmetic: the n*eps*cond(A) rounding bound of the property is NOT decided (DESIGN.md §6)', 'pivoted strategies: the pivot search is interpreted symbolically and every case decided for n <= 3 only; beyond that only the pivot-helper contracts under constant permutations apply'],
+                      extra_cov={'not_decided': 'floating-point residual bound; pivoted strategies end to end for n > 3'})
     finally:
         R.cleanup()
